@@ -6,11 +6,11 @@
    no line holds another of str.splitlines' break characters. *)
 From Coq Require Import ZArith List Bool Lia.
 From Mistletoe Require Import Base.Sx Base.PyStr Base.PyText Gen.GenTables Gen.GenConfig Gen.GenEscapes Model.Fillers Model.Tree Model.CoreTokens Model.Block Model.Build
-     Model.DocLines Model.HtmlRenderer Model.Parser Proofs.PlainProse Proofs.Prose Proofs.ProseLines Proofs.ListLaw Proofs.FenceLaw Spec.Fragment Proofs.FragmentP Proofs.FragmentDoc.
+     Model.DocLines Model.HtmlRenderer Model.Parser Proofs.PlainProse Proofs.Prose Proofs.ProseLines Proofs.ListLaw Proofs.FenceLaw Spec.Fragment Proofs.FragmentP Proofs.FragmentDoc Proofs.EmphSimple Proofs.EmphSentence.
 Import ListNotations.
 Local Open Scope Z_scope.
 
-Definition is_fpara (t : ftree) : bool := match t with FPara _ _ _ => true | _ => false end.
+Definition is_fpara (t : ftree) : bool := match t with FPara _ _ _ | FEm _ _ _ _ _ _ => true | _ => false end.
 Definition first_fpara (ts : list ftree) : bool := match ts with t :: _ => is_fpara t | [] => false end.
 Definition last_fpara (ts : list ftree) : bool := match rev ts with t :: _ => is_fpara t | [] => false end.
 
@@ -34,6 +34,10 @@ Fixpoint html_f (o : hopts) (tight : bool) (t : ftree) : str :=
     join [10] (map (html_f o tight') ts) ++ (if tight' && last_fpara ts then [] else [10]) ++ $"</li>" ++ [10] ++ list_close mk
   | FHead lv c body => $"<h" ++ [48 + Z.of_nat lv] ++ $">" ++ escape_html_text o (c :: body) ++ $"</h" ++ [48 + Z.of_nat lv] ++ $">"
   | FRule _ _ => $"<hr />"
+  | FEm c0 pre ch double w post =>
+    let tag := if double then $"strong" else $"em" in
+    let inner := escape_html_text o (c0 :: pre) ++ $"<" ++ tag ++ $">" ++ escape_html_text o w ++ $"</" ++ tag ++ $">" ++ escape_html_text o post in
+    if tight then inner else $"<p>" ++ inner ++ $"</p>"
   end.
 
 (* ---- serialisation ---- *)
@@ -70,9 +74,9 @@ Lemma tok_seq_plain ts : tok_seq false ts = map (tok_of false) ts.
 Proof. induction ts as [|t r IH]; [reflexivity|]. cbn [tok_seq map blank_tok app]. destruct r; [reflexivity|]. rewrite IH. reflexivity. Qed.
 
 Lemma first_para_tok ts : first_is_paragraph (map (tok_of false) ts) = first_fpara ts.
-Proof. destruct ts as [|[ | | | | | ] r]; reflexivity. Qed.
+Proof. destruct ts as [|[ | | | | | | ] r]; reflexivity. Qed.
 Lemma last_para_tok ts : last_is_paragraph (map (tok_of false) ts) = last_fpara ts.
-Proof. unfold last_is_paragraph, last_fpara. rewrite <- map_rev. destruct (rev ts) as [|[ | | | | | ] r]; reflexivity. Qed.
+Proof. unfold last_is_paragraph, last_fpara. rewrite <- map_rev. destruct (rev ts) as [|[ | | | | | | ] r]; reflexivity. Qed.
 
 Lemma marker_list mk : marker_ok mk ->
   (if slen (marker_str mk) =? 1 then None else Some (int_of_digits (removelast (marker_str mk)))) =
@@ -113,15 +117,38 @@ Proof.
   destruct D as [->|[->|[->|[->|[->| ->]]]]]; cbn; rewrite ?app_nil_r; reflexivity.
 Qed.
 
+Lemma html_em o sup c0 pre ch double w post :
+  serialize (render o sup false (tok_of false (FEm c0 pre ch double w post))) = html_f o sup (FEm c0 pre ch double w post).
+Proof.
+  cbn [tok_of html_f]. cbv zeta.
+  assert (E : serialize (flat_map (render o sup false) (RawText (c0 :: pre) :: (if double then Strong [ch] [RawText w] else Emphasis [ch] [RawText w]) :: raw_if post)) =
+              escape_html_text o (c0 :: pre) ++ $"<" ++ (if double then $"strong" else $"em") ++ $">" ++ escape_html_text o w ++ $"</" ++ (if double then $"strong" else $"em") ++ $">" ++ escape_html_text o post).
+  { change (RawText (c0 :: pre) :: (if double then Strong [ch] [RawText w] else Emphasis [ch] [RawText w]) :: raw_if post)
+      with ([RawText (c0 :: pre)] ++ [if double then Strong [ch] [RawText w] else Emphasis [ch] [RawText w]] ++ raw_if post).
+    rewrite !flat_map_app. unfold serialize. rewrite !flat_map_app.
+    fold (serialize (flat_map (render o sup false) (raw_if post))).
+    assert (Rp : serialize (flat_map (render o sup false) (raw_if post)) = escape_html_text o post).
+    { destruct post as [|z p]; [|unfold raw_if; cbn [flat_map render]; rewrite app_nil_r; change (fill o GenEscapes.html_raw_text (z :: p)) with (escape_html_text o (z :: p)); unfold serialize; cbn [flat_map ser_item]; apply app_nil_r].
+      cbn [raw_if flat_map serialize]. unfold serialize, escape_html_text, apply_chain. cbn [flat_map].
+      induction GenEscapes.html_text_chain as [|[[g x] r] c IH]; [reflexivity|]. cbn [fold_left]. destruct (guard_on o g); exact IH. }
+    rewrite Rp. destruct double; cbn; rewrite ?app_nil_r, <- ?app_assoc; reflexivity. }
+  destruct sup.
+  - cbn [render]. cbv iota. exact E.
+  - cbn [render]. cbv iota. unfold wrap.
+    set (X := flat_map (render o false false) (RawText (c0 :: pre) :: (if double then Strong [ch] [RawText w] else Emphasis [ch] [RawText w]) :: raw_if post)) in *.
+    change (IOpen $"p" [] :: X ++ [IClose $"p"]) with ([IOpen $"p" []] ++ X ++ [IClose $"p"]).
+    rewrite !serialize_app, E. cbn. rewrite ?app_nil_r, <- ?app_assoc. reflexivity.
+Qed.
+
 Lemma html_fragment o : forall f t sup, (depth t <= f)%nat -> wf_b t = true ->
   serialize (render o sup false (tok_of false t)) = html_f o sup t.
 Proof.
   induction f as [|f IH]; intros t sup Hd Hw.
-  - destruct t as [c body more|ch n content|ts|mk pad ts|lv hc hb|rc rn]; [| |cbn [depth] in Hd; lia|cbn [depth] in Hd; lia| |reflexivity].
+  - destruct t as [c body more|ch n content|ts|mk pad ts|lv hc hb|rc rn|e0 epre ech edbl ew epost]; [| |cbn [depth] in Hd; lia|cbn [depth] in Hd; lia| |reflexivity|apply html_em].
     + apply html_para.
     + cbn [tok_of render html_f f_language f_content]. cbn. rewrite ?app_nil_r. reflexivity.
     + apply html_head. cbn [wf_b] in Hw. repeat rewrite andb_true_iff in Hw. destruct Hw as [[[[[[H1 H2] _] _] _] _] _]. apply Nat.leb_le in H1, H2. lia.
-  - destruct t as [c body more|ch n content|ts|mk pad ts|lv hc hb|rc rn]; [| | | |apply html_head; cbn [wf_b] in Hw; repeat rewrite andb_true_iff in Hw; destruct Hw as [[[[[[H1 H2] _] _] _] _] _]; apply Nat.leb_le in H1, H2; lia|reflexivity].
+  - destruct t as [c body more|ch n content|ts|mk pad ts|lv hc hb|rc rn|e0 epre ech edbl ew epost]; [| | | |apply html_head; cbn [wf_b] in Hw; repeat rewrite andb_true_iff in Hw; destruct Hw as [[[[[[H1 H2] _] _] _] _] _]; apply Nat.leb_le in H1, H2; lia|reflexivity|apply html_em].
     + apply html_para.
     + cbn [tok_of render html_f f_language f_content]. cbn. rewrite ?app_nil_r. reflexivity.
     + cbn [wf_b] in Hw. repeat rewrite andb_true_iff in Hw. destruct Hw as [[Hs Hall] Hg].
@@ -157,7 +184,7 @@ Qed.
 
 Lemma html_f_starts o t : exists r, html_f o false t = 60 :: r.
 Proof.
-  destruct t as [c body more|ch n content|ts|mk pad ts|lv hc hb|rc rn]; cbn [html_f]; try (eexists; reflexivity).
+  destruct t as [c body more|ch n content|ts|mk pad ts|lv hc hb|rc rn|e0 epre ech edbl ew epost]; cbn [html_f]; try (eexists; reflexivity).
   destruct mk as [b|ds d]; cbn [list_open]; [eexists; reflexivity|]. destruct (int_of_digits ds =? 1); eexists; reflexivity.
 Qed.
 
@@ -169,10 +196,10 @@ Qed.
 
 (* Document(lines), rendered to HTML *)
 Theorem fragment_html cfg o t :
-  fragment_config (cfg_block cfg) = true -> prose_spans (cfg_span cfg) = true -> wf_b t = true ->
+  fragment_config (cfg_block cfg) = true -> prose_spans (cfg_span cfg) = true -> emph_spans (cfg_span cfg) = true -> wf_b t = true ->
   render_html o (fst (fst (parse_lines cfg (text_of (spell t))))) = html_f o false t ++ [10].
 Proof.
-  intros Hc Hq Hw. rewrite (fragment_document cfg t Hc Hq Hw).
+  intros Hc Hq He Hw. rewrite (fragment_document cfg t Hc Hq He Hw).
   pose proof (html_fragment o (depth t) t false (le_n _) Hw) as E. destruct (html_f_starts o t) as [r Er].
   rewrite (render_document_one o _ r) by (rewrite E; exact Er). rewrite E. reflexivity.
 Qed.
@@ -232,7 +259,7 @@ Proof.
   intros Hw H1. unfold markdown_html, parse_document. rewrite (doc_lines_spelled t H1).
   pose proof (fragment_html (if ph then cfg_html else cfg_html_nohtml) o t) as F.
   destruct (parse_lines (if ph then cfg_html else cfg_html_nohtml) (text_of (spell t))) as [[d fn] ls]. cbn [fst] in F.
-  apply F; [destruct ph; vm_compute; reflexivity|destruct ph; vm_compute; reflexivity|exact Hw].
+  apply F; [destruct ph; vm_compute; reflexivity|destruct ph; vm_compute; reflexivity|destruct ph; vm_compute; reflexivity|exact Hw].
 Qed.
 
 Example html_instance :
